@@ -204,6 +204,7 @@ func propC02(j *Job) {
 		cases = append(cases, famZ7(modes, 0)...)
 	}
 	cases = append(cases, famZ9(modes, 1)...)
+	cases = append(cases, famZS([]int{1000, 4300})...)
 	runCases(j, cases, func(spec *xferSpec) func(m *Sim, x *Exec, r *xferResult) { return deliveryFinal(spec, true, monOpts{}) })
 	// reliable streams next to a partially reliable one whose message is lost and abandoned:
 	// whatever else is lost (the FORWARD-TSN, its acknowledgement), the reliable data still gets
